@@ -769,14 +769,33 @@ def par_shared(kind):
 def par_fail():
     return {
         'name': 'par_fail',
-        'plain': ['s', 'bad', 'ok', 'ok2'],
-        'rules': {'bad.do': [{'bad': [ifchange('s'), exit_(4)]}],
-                  'ok.do': [{'ok': [ifchange('s'), out('stdout', 's')]}],
+        'plain': ['s', 's2', 'bad', 'ok', 'ok2'],
+        # (bad fails at once, ok takes several steps: the failure is known while ok is still running and a third target
+        # waits for its turn - without --keep-going the scheduler stops starting targets but still waits for ok)
+        'rules': {'bad.do': [{'bad': [exit_(4)]}],
+                  'ok.do': [{'ok': [ifchange('s'), ifchange('s2'), ifchange('s'), out('stdout', 's')]}],
                   'ok2.do': [{'ok2': [ifchange('ok'), out('stdout', 'ok')]}]},
-        'init': ['s', 'bad.do', 'ok.do', 'ok2.do'],
+        'init': ['s', 's2', 'bad.do', 'ok.do', 'ok2.do'],
         'cmds': [('redo', ['bad', 'ok', 'ok2'], True, 2), ('redo', ['ok', 'bad', 'ok2'], False, 2)],
         'user': [], 'rm': [], 'doedits': [],
         'bounds': (2, 2),
+    }
+
+
+def par_fail4():
+    """a failure that becomes known while a slow sibling is still running and later targets wait for a token: without
+    --keep-going the scheduler stops starting targets, but it waits for the sibling and records it"""
+    return {
+        'name': 'par_fail4',
+        'plain': ['s', 's2', 'bad', 'ok', 'f1', 'f2'],
+        'rules': {'bad.do': [{'bad': [exit_(4)]}],
+                  'ok.do': [{'ok': [ifchange('s'), ifchange('s2'), ifchange('s'), ifchange('s2'), out('stdout', 's')]}],
+                  'f1.do': [{'f1': [out('stdout')]}],
+                  'f2.do': [{'f2': [out('stdout')]}]},
+        'init': ['s', 's2', 'bad.do', 'ok.do', 'f1.do', 'f2.do'],
+        'cmds': [('redo', ['ok', 'bad', 'f1', 'f2'], False, 2)],
+        'user': [], 'rm': [], 'doedits': [],
+        'bounds': (1, 1), 'repeat': 6,
     }
 
 
@@ -814,7 +833,7 @@ def par_window():
 
 
 def parallel_family():
-    return [complete(p) for p in [par_diamond(2), par_fan(3), par_shared('stamp'), par_shared('always'), par_fail(),
+    return [complete(p) for p in [par_diamond(2), par_fan(3), par_shared('stamp'), par_shared('always'), par_fail(), par_fail4(),
                                   par_unlocked(), par_window()]]
 
 
